@@ -265,7 +265,14 @@ func sameNameSets() []modset {
 		two("grouping:modules:clean", " grouping g { leaf l { type string; } } container ua { uses g; }", " grouping g { leaf x { type string; } } container ub { uses g; }", "ok"),
 		two("grouping:modules:cycle2", " grouping g { leaf l { type string; } } grouping h { leaf m { type string; } } container ua { uses g; uses h; }", " grouping g { uses h; } grouping h { uses g; } container ub { uses g; }", "error"),
 		one("grouping:scopes:cyclic", " container x { grouping g { leaf l { type string; } } uses g; } container y { grouping g { leaf m { type string; } uses g; } uses g; }", "error"),
-		one("grouping:scopes:clean", " container x { grouping g { leaf l { type string; } } uses g; } container y { grouping g { leaf m { type string; } } uses g; }", "ok"),
+		one("grouping:scopes:clean", " container x { grouping g { leaf l { type string; } } uses g; } container y { grouping g { leaf m { type string; } } uses g; }", "any"),
+		one("grouping:deep-self", " grouping g { container c { uses g; } } container t { uses g; }", "error"),
+		one("grouping:deep-cycle2", " grouping g { leaf l { type string; } container c { uses h; } } grouping h { list li { key k; leaf k { type string; } uses g; } } container t { uses g; }", "error"),
+		one("grouping:deep-unused-cycle", " grouping g { container c { uses g; } } container t { leaf l { type string; } }", "error"),
+		one("grouping:deep-via-augment", " grouping h { container hc { leaf l { type string; } } } grouping g { uses h { augment hc { uses g; } } } container t { uses g; }", "error"),
+		one("grouping:deep-diamond", " grouping d { leaf x { type string; } } grouping b { container cb { uses d; } } grouping c { container cc { uses d; } } grouping top { uses b; uses c; container w { uses d; } } container t { uses top; }", "ok"),
+		one("grouping:direct-and-deep-diamond", " grouping d { leaf x { type string; } } grouping b { uses d; } grouping top { uses b; container w { uses d; } } container t { uses top; }", "ok"),
+		one("grouping:nested-definition-cycle", " grouping g { grouping h { container c { uses g; } } uses h; } container t { uses g; }", "error"),
 		two("typedef:modules:cyclic", " typedef t { type int8; } leaf la { type t; }", " typedef t { type t; } leaf lb { type t; }", "error"),
 		two("typedef:modules:clean", " typedef t { type int8; } leaf la { type t; }", " typedef t { type string; } leaf lb { type t; }", "ok"),
 		one("typedef:scopes:cyclic", " container x { typedef t { type int8; } leaf l { type t; } } container y { typedef t { type t; } leaf l { type t; } }", "error"),
